@@ -58,6 +58,8 @@ structure OSt where
   prevRR : Option (Nat × Nat) := none
   curStart : Option (Nat × Nat) := none
   prevQ : Nat := 0
+  /-- last known worker queue lengths (wid, len) -/
+  prevWq : List (Nat × Nat) := []
   prevIdleDrain : Bool := false
   startsTotal : Nat := 0
   /-- actors whose `Finished` report the factory has not processed yet (no answered snapshot since) -/
@@ -166,7 +168,7 @@ def oStep (s : OSt) : Ev → OSt
     let s := { s with hooks := hs }
     if isPrefixOf' hs [.started, .draining, .stopped] then s else s.flag "c15-hook-order"
   | .lost .. | .dropped _ | .panicked | .portClosed _ => s
-  | .snap up q act _cap live =>
+  | .snap up q act _cap live wq =>
     let blocked := up && q.isNone
     let s := if !up && s.up && !s.hooks.contains .stopped then s.flag "c15-stopped-without-hook" else s
     let s := if s.prevIdleDrain && up then s.flag "c15-drain-not-stopped" else s
@@ -205,6 +207,20 @@ def oStep (s : OSt) : Ev → OSt
           then s.flag "c13-silently-disappeared" else s
         { s with prevQ := q, prevIdleDrain := s.drainReq && act == 0 && q == 0 && s.running.isEmpty, unprocessed := [] }
       | _, _ => { s with prevIdleDrain := false }
+    -- C15 limit on the worker queues (worker-queueing routers): a dispatch never grows a worker's
+    -- queue beyond L (a queue that was longer when L was lowered only stops growing)
+    let s := match wq with
+      | some wq =>
+        let s := if !isFactoryQueueing s.info.router && s.stepDispatch.isSome && s.stepOps == 1 && !s.discChanged then
+            (match s.disc with
+             | some (l, _) =>
+               if wq.all (fun (x : Nat × Nat) =>
+                   x.2 ≤ max l (((s.prevWq.find? (fun (y : Nat × Nat) => y.1 == x.1)).map (fun (y : Nat × Nat) => y.2)).getD 0))
+               then s else s.flag "c15-worker-queue-limit"
+             | none => s)
+          else s
+        { s with prevWq := wq }
+      | none => s
     -- every dispatch after DrainRequests is refused with Shutdown in its own step
     let s := match s.stepDispatch.bind s.getJob with
       | some j =>
